@@ -18,12 +18,25 @@ from .world import World
 
 
 def load_contracts(mod_names):
+    """contracts of the named modules (to be verified) + contracts of other modules they use at call sites
+    (flagged external: used, not verified here - they are verified by their own property's check)"""
+    import copy as _copy
     contracts, uses, mods = [], {}, []
     for m in mod_names:
         cm = importlib.import_module(m)
         mods.append(cm)
         contracts.extend(cm.CONTRACTS)
         uses.update(getattr(cm, 'USES', {}))
+    for cm in list(mods):
+        for em, names in getattr(cm, 'EXTERNAL_CONTRACTS', {}).items():
+            if em in mod_names:
+                continue
+            ecm = importlib.import_module(em)
+            for c in ecm.CONTRACTS:
+                if c.name in names and not any(k.name == c.name for k in contracts):
+                    c2 = _copy.copy(c)
+                    c2.external = em
+                    contracts.append(c2)
     return mods, contracts, uses
 
 
@@ -177,6 +190,7 @@ def run_proof_tier(prop, contract_modules, source_modules, classify=None):
     for cm in cms:
         for c in cm.CONTRACTS:
             cm_of[c.name] = cm.__name__
+    external_used = sorted({f"{c.name} (from {c.external})" for c in contracts if getattr(c, 'external', None)})
 
     results = driver.run_contracts(world, contracts, uses, mode='modular')
     obs, funcs = driver.aggregate(contracts, results)
@@ -211,6 +225,21 @@ def run_proof_tier(prop, contract_modules, source_modules, classify=None):
     timing['inline_fallback_s'] = round(time.time() - t0 - timing['modular_s'], 2)
 
     violations, undecided, errors, diagnostics = [], [], [], []
+    # syntactic obligations over the real source (decided by the contract module's own AST scan)
+    static_results = {}
+    for cm in cms:
+        for oid, (fn, lvl) in getattr(cm, 'STATIC_OBLIGATIONS', {}).items():
+            t1 = time.time()
+            try:
+                ok, detail = fn(world)
+            except Exception as e:      # noqa
+                ok, detail = None, {'error': repr(e)}
+            static_results[oid] = {'id': oid, 'level': lvl, 'kind': 'syntactic', 'instances': 1,
+                                   'status': 'discharged' if ok else ('undecided' if ok is None else 'refuted'),
+                                   'backends': {'ast-scan': 1}, 'solver_time_s': round(time.time() - t1, 4),
+                                   'detail': detail, 'contract_module': cm.__name__}
+            if ok is None:
+                undecided.append(f"{oid}: {detail}")
     for oid, o in sorted(obs.items()):
         c = by_q[o['function']]
         if o['status'] == 'refuted':
@@ -313,6 +342,8 @@ def run_proof_tier(prop, contract_modules, source_modules, classify=None):
 
     functions = []
     for c in contracts:
+        if getattr(c, 'external', None):
+            continue
         d = world.sources[c.module].describe(c.qualname)
         fr = funcs.get(c.name, {})
         d['contract'] = c.name
@@ -331,7 +362,7 @@ def run_proof_tier(prop, contract_modules, source_modules, classify=None):
     for cm in cms:
         for a in getattr(cm, 'ASSUMED_LIBRARY', []):
             assumed.append("library contract (assumed): " + a)
-    return {'violations': violations, 'undecided': undecided, 'errors': errors, 'diagnostics': diagnostics,
+    return {'external_contracts_used': external_used, 'static': static_results, 'violations': violations, 'undecided': undecided, 'errors': errors, 'diagnostics': diagnostics,
             'obligations': obs, 'functions': functions, 'assumed': assumed, 'canaries': canary_log,
             'crosscheck': {'samples': n_cc, 'disagreements': len(bad_cc)}, 'dropped': list(world.dropped),
             'time_s': round(time.time() - t0, 2), 'timing': timing, 'world': world, 'contracts': contracts, 'cms': cms}
